@@ -236,7 +236,9 @@ ScopeEndV(regs, ran, e) ==
                                     /\ Count(ran, regs[i].key) = 1 /\ Count(ran, regs[j].key) = 1
                                     /\ FirstPos(ran, regs[i].key) < FirstPos(ran, regs[j].key)
        THEN {<<"cleanup_lifo", "order">>} ELSE {},
-       IF e = ECleanup /\ ~raisedRan THEN {<<"api_errors", "CleanupBoom">>} ELSE {} }
+       \* the scope end may raise (any exception type: the statement only says that the owner fails) iff a
+       \* cleanup that ran raises
+       IF e # ENone /\ ~raisedRan THEN {<<"api_errors", IF e \in 1..8 THEN ExcName[e] ELSE "other">>} ELSE {} }
 \* nothing may run outside a scope end (fixture setups are judged by the fixture op itself)
 EarlyV(ran) == IF ran = <<>> THEN {} ELSE {<<"cleanup_layer", "early">>}
 
@@ -254,9 +256,9 @@ MonCase(m, op, ob, seq) ==
                         bad == Bad(f, ob)
                     IN MR(f, {<<"shadow", "view">> : i \in {x \in bad : m[d].attrs[x] # Absent /\ MLk(f, x) # Absent}}
                              \cup {<<"scope_end", "view">> : i \in {x \in bad : ~(m[d].attrs[x] # Absent /\ MLk(f, x) # Absent)}}
-                             \cup ScopeEndV(m[d].regs, ran, e), {ENone, ECleanup})
+                             \cup ScopeEndV(m[d].regs, ran, e), 0..9)
         [] c = 14 -> LET f == [m EXCEPT ![d].regs = <<>>]
-                     IN MR(f, ViewV(f, ob, "visible") \cup ScopeEndV(m[d].regs, ran, e), {ENone, ECleanup})
+                     IN MR(f, ViewV(f, ob, "visible") \cup ScopeEndV(m[d].regs, ran, e), 0..9)
         [] c = 3 -> LET f == [m EXCEPT ![d].attrs[n] = op[3]] IN MR(f, ViewV(f, ob, "visible") \cup EarlyV(ran), {ENone})
         [] c = 4 -> LET f == [m EXCEPT ![1].attrs[n] = op[3]] IN MR(f, ViewV(f, ob, "root_attr") \cup EarlyV(ran), {ENone})
         [] c = 5 -> LET x == MLk(m, n)
